@@ -133,6 +133,21 @@ def run_case(case, tier):
                     if f2:
                         recs = recs + f2
                         classes.append("several-ions-of-one-kind")
+            if case["frag"].startswith("ion:") and rng.random() < 0.6:
+                # the trailing columns of the ion records: element in 77-78 and the formal charge in 79-80, in
+                # the spellings programs write ("2+" wwPDB style, "+2" sign first, blank); the charge written is
+                # the configured one
+                q = int(util.parse_cfg()["ions"][case["frag"][4:]])
+                el = fragments.IONS[case["frag"][4:]].upper()
+                spell = rng.choice(("%d%s" % (abs(q), "+" if q > 0 else "-"), "%s%d" % ("+" if q > 0 else "-", abs(q)), "  "))
+                out_ = []
+                for r in recs:
+                    if r.raw is None and r.tag == "HETATM" and r.resn.strip() == case["frag"][4:]:
+                        r = r.copy()
+                        r.tail = "  1.00 20.00          %2s%s" % (el[:2] if el != "X" else " X", spell)
+                    out_.append(r)
+                recs = out_
+                classes.append("ion-charge-column:" + ("blank" if not spell.strip() else ("sign-first" if spell[0] in "+-" else "sign-last")))
             desc.update({"frag": case["frag"], "distance": dist, "anchor": anchor.text()[12:27] if anchor else None})
     opts = []
     if rng.random() < 0.35:
